@@ -656,6 +656,7 @@ theorem step_good (w : World) (op : Op) (g : Good w) : Good (step w op) := by
   | tcpconn src script => exact tcpConn_good w src script g
   | rmserver si => exact rmserver_good w si g
   | srvconn si script => exact srvConn_good w si script g
+  | srvnext si n => exact g.of (updSrv_noslots_inv w _ si _ (fun _ => rfl) g.inv) (tame_updSrv w si _ (fun _ => rfl) (fun _ _ => Nat.min_le_right n 256))
 
 /-! ### every history -/
 
